@@ -818,6 +818,17 @@ Fixpoint fin_val (v : value) : bool :=
 
 Definition is_nil {X} (l : list X) : bool := match l with [] => true | _ => false end.
 
+(* nothing outside the model, string hash keys pairwise different (C09's invariant): all that detailed_complete needs
+   of the value besides the exclusion the property names (no reflexivity, no condition on UniqueTypes) *)
+Fixpoint kv_ok (v : value) : bool :=
+  match v with
+  | VOther _ => false
+  | VArr vs => forallb kv_ok vs
+  | VHash es => distinct_keys (map fst es) && forallb (fun e => kv_ok (fst e) && kv_ok (snd e)) es
+  | VSensitive x => kv_ok x
+  | _ => true
+  end.
+
 (* what the statement needs of T: Struct types as NewStructType/NewStructElement build them (distinct, non-empty
    member names, key String[name] or Optional[String[name]]), and — finding C04/tuple-slots-beyond-size — no
    Tuple with more element types than its minimum size *)
@@ -914,24 +925,42 @@ Section DetailedComplete.
           | repeat (match type of Hi with context [match ?x with _ => _ end] => destruct x end; try discriminate Hi) ].
 
   Definition cv_ok (v : value) : bool := dv_ok rx v && no_undef_entry v && fin_val v.
+  Definition cv_ok0 (v : value) : bool := kv_ok v && no_undef_entry v && fin_val v.
 
-  Lemma cv_ok_split v : cv_ok v = true -> dv_ok rx v = true /\ no_undef_entry v = true /\ fin_val v = true.
-  Proof. unfold cv_ok. intros H. apply andb_true_iff in H. destruct H as [H H3]. apply andb_true_iff in H. tauto. Qed.
-
-  Lemma cv_ok_join v : dv_ok rx v = true -> no_undef_entry v = true -> fin_val v = true -> cv_ok v = true.
-  Proof. unfold cv_ok. now intros -> -> ->. Qed.
-
-  Lemma cv_ok_arr vs y : cv_ok (VArr vs) = true -> In y vs -> cv_ok y = true.
+  Lemma dv_kv : forall v, dv_ok rx v = true -> kv_ok v = true.
   Proof.
-    intros H Hy. apply cv_ok_split in H. destruct H as (H1 & H2 & H3). cbn [dv_ok no_undef_entry fin_val] in *.
+    induction v using value_ind'; intros Hok; cbn [dv_ok kv_ok] in *; try reflexivity; try discriminate Hok.
+    - rewrite forallb_forall in Hok. rewrite Forall_forall in H. apply forallb_forall. intros y Hy. apply (H y Hy). auto.
+    - apply andb_true_iff in Hok. destruct Hok as [Hok _]. apply andb_true_iff in Hok. destruct Hok as [Hok _].
+      apply andb_true_iff in Hok. destruct Hok as [Hk Hall]. rewrite Hk. cbn [andb].
+      rewrite forallb_forall in Hall. rewrite Forall_forall in H. apply forallb_forall. intros e He.
+      specialize (Hall e He). apply andb_true_iff in Hall. destruct Hall as [H1 H2]. destruct (H e He) as [I1 I2].
+      rewrite (I1 H1), (I2 H2). reflexivity.
+    - auto.
+  Qed.
+
+  Lemma cv_ok_cv_ok0 v : cv_ok v = true -> cv_ok0 v = true.
+  Proof.
+    unfold cv_ok, cv_ok0. intros H. apply andb_true_iff in H. destruct H as [H H3]. apply andb_true_iff in H.
+    destruct H as [H1 H2]. rewrite (dv_kv v H1), H2, H3. reflexivity.
+  Qed.
+
+  Lemma cv_ok_split v : cv_ok0 v = true -> kv_ok v = true /\ no_undef_entry v = true /\ fin_val v = true.
+  Proof. unfold cv_ok0. intros H. apply andb_true_iff in H. destruct H as [H H3]. apply andb_true_iff in H. tauto. Qed.
+
+  Lemma cv_ok_join v : kv_ok v = true -> no_undef_entry v = true -> fin_val v = true -> cv_ok0 v = true.
+  Proof. unfold cv_ok0. now intros -> -> ->. Qed.
+
+  Lemma cv_ok_arr vs y : cv_ok0 (VArr vs) = true -> In y vs -> cv_ok0 y = true.
+  Proof.
+    intros H Hy. apply cv_ok_split in H. destruct H as (H1 & H2 & H3). cbn [kv_ok no_undef_entry fin_val] in *.
     rewrite forallb_forall in H1, H2, H3. apply cv_ok_join; auto.
   Qed.
 
-  Lemma cv_ok_hash es k x : cv_ok (VHash es) = true -> In (k, x) es ->
-    cv_ok k = true /\ cv_ok x = true /\ is_vundef x = false.
+  Lemma cv_ok_hash es k x : cv_ok0 (VHash es) = true -> In (k, x) es ->
+    cv_ok0 k = true /\ cv_ok0 x = true /\ is_vundef x = false.
   Proof.
-    intros H Hin. apply cv_ok_split in H. destruct H as (H1 & H2 & H3). cbn [dv_ok no_undef_entry fin_val] in *.
-    apply andb_true_iff in H1. destruct H1 as [H1 _]. apply andb_true_iff in H1. destruct H1 as [H1 _].
+    intros H Hin. apply cv_ok_split in H. destruct H as (H1 & H2 & H3). cbn [kv_ok no_undef_entry fin_val] in *.
     apply andb_true_iff in H1. destruct H1 as [_ H1].
     rewrite forallb_forall in H1, H2, H3. specialize (H1 _ Hin). specialize (H2 _ Hin). specialize (H3 _ Hin).
     cbn [fst snd] in *. apply andb_true_iff in H1. destruct H1 as [D1 D2].
@@ -940,7 +969,9 @@ Section DetailedComplete.
     repeat split; [apply cv_ok_join; assumption|apply cv_ok_join; assumption|assumption].
   Qed.
 
-  Theorem detailed_complete_core : forall v, cv_ok v = true -> Q v.
+  (* the guard cv_ok0 asks nothing about types used as values (no reflexivity) nor about UniqueTypes: the proof only
+     needs that every member of the deduplicated list is a member of the list (udedup_incl) *)
+  Theorem detailed_complete_core0 : forall v, cv_ok0 v = true -> Q v.
   Proof.
     induction v using value_ind'; intros Hok; apply complete_wrap; intros T Hb Hw Hi.
     - (* Undef *) destruct T; try discriminate Hb; cbn in Hi; try (dead Hi); reflexivity.
@@ -948,7 +979,7 @@ Section DetailedComplete.
     - (* Bool *) destruct T; try discriminate Hb; cbn in Hi; try (dead Hi); try reflexivity.
       cbn. destruct v as [x|]; [|reflexivity]. cbn. apply eqb_prop in Hi. subst. apply eqb_reflx.
     - (* Int *) destruct T; try discriminate Hb; cbn in Hi; try (dead Hi); try reflexivity. exact Hi.
-    - (* Float *) unfold cv_ok in Hok. cbn [dv_ok no_undef_entry fin_val andb] in Hok.
+    - (* Float *) unfold cv_ok0 in Hok. cbn [kv_ok no_undef_entry fin_val andb] in Hok.
       destruct T; try discriminate Hb; cbn in Hi; try (dead Hi); try reflexivity.
       + (* Float[lo, hi]: k is inside, or the range is unbounded and k is a float key *)
         cbn [infer_detailed infer recv]. unfold in_size, float_unbounded, size_sub in *. lia.
@@ -1012,8 +1043,8 @@ Section DetailedComplete.
         assert (HQ : forall k x, In (k, x) es -> Q k /\ Q x /\ is_vundef x = false).
         { intros k x Hin. destruct (H _ Hin) as [Hk Hx]. destruct (cv_ok_hash es k x Hok Hin) as (H1 & H2 & H3).
           cbn [fst snd] in *. auto. }
-        assert (Hdv : dv_ok rx (VHash es) = true) by (unfold cv_ok in Hok; bools; assumption).
-        cbn [dv_ok] in Hdv. bools. rename H0 into Hkeys, H3 into Hall, H2 into Hdk, H1 into Hdvs.
+        assert (Hkeys : distinct_keys (map fst es) = true).
+        { destruct (cv_ok_split _ Hok) as (Hkv & _ & _). cbn [kv_ok] in Hkv. apply andb_true_iff in Hkv. tauto. }
         unfold es at 1. rewrite D_hash_cons. fold es.
         destruct (forallb is_named es) eqn:Enamed.
         * (* detailed type: Struct, every key required *)
@@ -1073,7 +1104,10 @@ Section DetailedComplete.
     - (* Type *) destruct T; try discriminate Hb; cbn in Hi; try (dead Hi). exact Hi.
     - (* Sensitive *) destruct T; try discriminate Hb; try (cbn in Hi; discriminate Hi). cbn [inst] in Hi.
       cbn [infer_detailed recv]. cbn [cwf] in Hw. apply IHv; [|assumption|assumption].
-      unfold cv_ok in *. cbn [dv_ok no_undef_entry fin_val] in Hok. exact Hok.
-    - (* Other *) unfold cv_ok in Hok. cbn in Hok. discriminate.
+      unfold cv_ok0 in *. cbn [kv_ok no_undef_entry fin_val] in Hok. exact Hok.
+    - (* Other *) unfold cv_ok0 in Hok. cbn in Hok. discriminate.
   Qed.
+
+  Theorem detailed_complete_core : forall v, cv_ok v = true -> Q v.
+  Proof. intros v H. exact (detailed_complete_core0 v (cv_ok_cv_ok0 v H)). Qed.
 End DetailedComplete.
